@@ -194,7 +194,8 @@ theorem runProposalMsgs_ghost (hc : execInCacheCtx = true) (ms : List Msg) (s : 
 
 theorem dropInactive_ledger {s s' : State} {pid : Nat} (hsh : inactiveSettleShapeOk = true) (h : Ledger s)
     (hd : dropInactive pid s = .ok s') : Ledger s' := by
-  unfold dropInactive at hd
+  rw [dropInactive_eq] at hd
+  unfold dropInactiveSpec at hd
   split at hd
   · cases hd
   · simp only [hsh, if_true] at hd
@@ -208,6 +209,7 @@ theorem finishTally_ledger {s s' : State} {pid : Nat} {p : Proposal} {passes bur
     (h2 : settleShapeOk = true) (h3 : execInCacheCtx = true) (h : Ledger s)
     (hf : finishTally passes burn res p pid s = .ok s') : Ledger s' := by
   unfold finishTally at hf
+  simp only [refundRun_eq, burnRun_eq] at hf
   simp only [h2, Bool.not_true, Bool.false_and, Bool.false_eq_true, if_false] at hf
   simp only [if_true] at hf
   have settle : ∀ s1 : State,
@@ -300,7 +302,8 @@ theorem step_ledger (h1 : inactiveSettleShapeOk = true) (h2 : settleShapeOk = tr
     simp only [step, Model.C15.ofExcept]
     split
     · rename_i s' hs
-      unfold submit at hs
+      rw [submit_eq] at hs
+      unfold submitSpec at hs
       split at hs
       · cases hs
       · split at hs
@@ -331,7 +334,7 @@ theorem step_ledger (h1 : inactiveSettleShapeOk = true) (h2 : settleShapeOk = tr
       · exact addDeposit_ledger h hs
     · exact h
   | cancel pid who =>
-    simp only [step, Model.C15.ofExcept]
+    simp only [step, Model.C15.ofExcept, cancelRun_eq]
     split
     · rename_i s' hs; exact cancel_ledger h hs
     · exact h
@@ -339,7 +342,8 @@ theorem step_ledger (h1 : inactiveSettleShapeOk = true) (h2 : settleShapeOk = tr
     simp only [step, Model.C15.ofExcept]
     split
     · rename_i s' hs
-      unfold vote at hs
+      rw [vote_eq] at hs
+      unfold voteSpec at hs
       split at hs
       · cases hs
       · split at hs
